@@ -1020,4 +1020,6 @@ func e2exGroups(t *testing.T, r *rep.Reporter, w *world, mark func(string)) {
 	mark("group I")
 	bigDNSGroup(t, r, pki)
 	mark("group J")
+	dnsFaultGroup(t, r, pki)
+	mark("group K")
 }
